@@ -58,6 +58,7 @@ func runC16(c *core.Ctx) {
 	}
 	iface := astI.Type().Underlying().(*types.Interface)
 	var seqFn *ssa.Function
+	applyFns := map[*ssa.Function]bool{}
 	for _, n := range pk.Types.Scope().Names() {
 		tn, ok := pk.Types.Scope().Lookup(n).(*types.TypeName)
 		if !ok || tn == astI {
@@ -72,7 +73,8 @@ func runC16(c *core.Ctx) {
 			continue
 		}
 		name := "duct." + n + ".Apply"
-		an := c.Analyze(fn)
+		applyFns[fn] = true
+		an := c.AnalyzeLoops(fn)
 		if problems(c, "bracket", name, an) {
 			continue
 		}
@@ -89,7 +91,18 @@ func runC16(c *core.Ctx) {
 	}
 	// Morphism.Apply starts at depth 0 on its own code
 	if fn := c.W.Method("duct", "Morphism", "Apply"); fn != nil {
-		if p := singlePath(c, "bracket", "duct.Morphism.Apply", fn); p != nil {
+		// the node visitors stay opaque here (they are checked above); a loop-free sequence visitor would
+		// otherwise be inlined into the morphism's own Apply
+		man := c.AnalyzeKeeping(fn, "apply-opaque", func(f *ssa.Function) bool { return applyFns[f] })
+		var p *ir.Path
+		if !problems(c, "bracket", "duct.Morphism.Apply", man) {
+			if ps := man.AllPaths(); len(ps) == 1 && ps[0].Exit == ir.ExitReturn {
+				p = ps[0]
+			} else {
+				c.Fail("bracket", "duct.Morphism.Apply", fn.Pos(), "expected one straight-line returning path, found %d paths", len(ps))
+			}
+		}
+		if p != nil {
 			cs := calls(p)
 			ok := len(cs) == 1 && cs[0].Static == seqFn || len(cs) == 1 && cs[0].Static != nil && cs[0].Static.Name() == "Apply"
 			if ok {
